@@ -17,6 +17,9 @@
 (*   lookup    registry.Lookup<Kind>("pre.name", path)                     *)
 (*   glob      registry.Lookup<Kind>(name, "")                             *)
 (*   method / svcmethod / parent / fieldid / fieldname                     *)
+(*   allmethods / methodfromall   ServiceDescriptor.GetAllMethods(),       *)
+(*             GetMethodByNameFromAll(name): the whole chain of extends     *)
+(*   closure   registry.LookupIncludedStructsFromStruct                     *)
 (*   tref      TypeDescriptor.Get<Kind>Descriptor() of a written type      *)
 (*   bygo      Go type -> descriptor; togo: descriptor -> Go type;         *)
 (*   own       the generated GetDescriptor() / GetTypeDescriptor()         *)
@@ -47,6 +50,8 @@ NoFd(q) == q.f \notin Reg
 BatchTypes(qs) == {<<<<qs[k].f, qs[k].kind, qs[k].m>>, Cls(qs[k].kind), qs[k].ty>> :
                      k \in {j \in DOMAIN qs : qs[j].q = "bygo"}}
 
+KindOf(c) == CASE c = 1 -> "struct" [] c = 2 -> "union" [] c = 3 -> "exception" [] OTHER -> "?"
+
 OKq(q, bt) ==
   CASE q.q = "fd"     -> q.err = "" /\ q.rf = (IF q.f \in Reg THEN q.f ELSE 0)
     [] q.q = "inc"    -> IF NoFd(q) THEN q.err = "nofd" ELSE q.err = "" /\ q.rf \in IncFDSet(P, Reg, q.f, q.pre)
@@ -59,6 +64,17 @@ OKq(q, bt) ==
     [] q.q = "svcmethod" -> IF NoFd(q) THEN q.err = "nofd"
                          ELSE q.err = "" /\ [f |-> q.rf, i |-> q.ri, j |-> q.rj]
                                               = NormM(MethodIn(P, [f |-> q.f, i |-> q.n], q.s))
+    [] q.q = "allmethods" -> IF NoFd(q) THEN q.err = "nofd"
+                         ELSE q.err = "" /\ \E A \in {AllMethods(P, Reg, [f |-> q.f, i |-> q.n], 6)} :
+                                /\ {[f |-> x[1], i |-> x[2], j |-> x[3]] : x \in Range(q.l)} = A
+                                /\ Len(q.l) = Cardinality(A)
+    [] q.q = "methodfromall" -> IF NoFd(q) THEN q.err = "nofd"
+                         ELSE q.err = "" /\ \E A \in {{m \in AllMethods(P, Reg, [f |-> q.f, i |-> q.n], 6) : MethodName(P, m) = q.s}} :
+                                IF A = {} THEN q.rf = 0 ELSE [f |-> q.rf, i |-> q.ri, j |-> q.rj] \in A
+    [] q.q = "closure" -> IF NoFd(q) THEN q.err = "nofd"
+                         ELSE q.err = "" /\ \E S \in {{<<x[1], KindOf(x[2]), x[3]>> : x \in Range(q.l)}} :
+                                /\ Closure(P, Reg, {<<q.f, "struct", q.n>>}, FALSE, 8) \subseteq S
+                                /\ S \subseteq Closure(P, Reg, {<<q.f, "struct", q.n>>}, TRUE, 8)
     [] q.q = "parent" -> IF NoFd(q) THEN q.err = "nofd" ELSE q.err = "" /\ Ans(q) = Parent(P, Reg, q.f, q.n)
     [] q.q = "fieldid" -> IF NoFd(q) THEN q.err = "nofd"
                           ELSE q.err = "" /\ q.rj = FieldById(Defs(P[q.f], q.kind)[q.n].fields, q.m)
